@@ -663,6 +663,38 @@ def w_hssp(task: tuple, part: Part) -> None:
                          "reference_points": "{max,max+1}^d of " + str(mx)}, cap=1)
 
 
+def w_hsspg(task: tuple, part: Part) -> None:
+    """_solve_hssp on every multiset of exactly n points of {0..m}^d (this shard) that contains at
+    least one DOMINATED point (the antichains are covered by w_hssp): the statement quantifies over
+    point sets with dominated points, and the greedy (1-1/e) guarantee holds for any input."""
+    _, d, m, n, shard, nshards, full_orders = task
+    _quiet()
+    lat = get_lat(d, m)
+    refbits = list(itertools.product((0, 1), repeat=d))
+    for idx in multiset_shard(lat.N, n, shard, nshards):
+        dup, tie, dom = lat.features(idx)
+        if not dom:
+            continue
+        part.add("multisets_with_dominated_points")
+        pts0 = [lat.pts[i] for i in idx]
+        mx = [max(p[k] for p in pts0) for k in range(d)]
+        for o in orders(idx, full_orders):
+            opts = [lat.pts[i] for i in o]
+            for bits in refbits:
+                ref = tuple(mx[k] + bits[k] for k in range(d))
+                rm = lat.refmask(ref)
+                masks = [lat.D[i] & rm for i in o]
+
+                def hv_of(pos: Sequence[int], masks: list = masks) -> int:
+                    u = 0
+                    for q in pos:
+                        u |= masks[q]
+                    return u.bit_count()
+
+                for k in range(1, n):
+                    check_hssp(part, d, opts, ref, k, hv_of, True)
+
+
 def _ext_refs(mx: Sequence[float], wide: bool) -> list[tuple]:
     """Reference points weakly dominated by the set, over the extended alphabet."""
     per = []
@@ -727,7 +759,7 @@ def w_inf(task: tuple, part: Part) -> None:
             part.sample({"fn": "extended alphabet", "d": d, "points": pts, "ranks": true_sorted}, cap=1)
 
 
-WORKERS = {"lat": w_lat, "pen": w_pen, "hssp": w_hssp, "inf": w_inf}
+WORKERS = {"lat": w_lat, "pen": w_pen, "hssp": w_hssp, "hsspg": w_hsspg, "inf": w_inf}
 
 
 def worker(task: tuple) -> dict:
@@ -750,7 +782,7 @@ EXT3 = (0.0, INF, -INF)
 def plan(tier: str) -> tuple[list[tuple], dict]:
     q = tier == "quick"
     tasks: list[tuple] = []
-    bounds: dict[str, list] = {"lat": [], "pen": [], "hssp": [], "inf": []}
+    bounds: dict[str, list] = {"lat": [], "pen": [], "hssp": [], "hsspg": [], "inf": []}
 
     def add(kind: str, d: int, m: Any, ns: Sequence[int], shards: Sequence[int], flag: bool = True) -> None:
         bounds[kind].append({"d": d, "alphabet": (f"{{0..{m}}}^{d}" if isinstance(m, int) else f"{list(m)}^{d}"),
@@ -807,6 +839,19 @@ def plan(tier: str) -> tuple[list[tuple], dict]:
         add("hssp", 4, 1, [5], [16], False)
         add("hssp", 4, 2, [3], [48], False)
         add("hssp", 5, 1, [4], [32], False)
+    # HSSP on multisets that contain dominated points (exactly n points)
+    if q:
+        add("hsspg", 2, 3, [2, 3, 4], [1, 2, 6])
+        add("hsspg", 3, 2, [2, 3], [1, 8])
+        add("hsspg", 4, 1, [3], [2])
+    else:
+        add("hsspg", 2, 3, [2, 3, 4, 5], [1, 2, 8, 32])
+        add("hsspg", 3, 2, [2, 3, 4], [1, 8, 48])
+        add("hsspg", 3, 3, [3], [32])
+        add("hsspg", 3, 3, [4], [64], False)
+        add("hsspg", 4, 1, [3, 4], [2, 8])
+        add("hsspg", 4, 2, [3], [32], False)
+        add("hsspg", 5, 1, [3], [16], False)
     # extended alphabet
     add("inf", 1, EXT, [1, 2, 3, 4], [1, 1, 1, 1])
     if q:
